@@ -22,6 +22,7 @@ type Opts struct {
 	Sync, Time, Unix, Yield, Copy, Go, Chan bool
 	YieldLoops                              bool // preemption points only at function entries and loop heads
 	Load                                    bool // packages.Load -> verifload.Load (memoised loading)
+	MapRange                                bool // range over a map -> range over csched.MapOrder (iteration order chosen by the explorer)
 }
 
 func ParseOpts(s string) (Opts, error) {
@@ -46,6 +47,8 @@ func ParseOpts(s string) (Opts, error) {
 			o.YieldLoops = true
 		case "load":
 			o.Load = true
+		case "maprange":
+			o.MapRange = true
 		case "":
 		default:
 			return o, fmt.Errorf("unknown instr option %q", f)
@@ -95,6 +98,15 @@ func File(path string, o Opts) ([]byte, error) {
 	}
 	if o.Chan {
 		if rewriteChans(f) {
+			needCsched = true
+		}
+	}
+	if o.MapRange {
+		n, err := rewriteMapRanges(fset, f, path)
+		if err != nil {
+			return nil, err
+		}
+		if n > 0 {
 			needCsched = true
 		}
 	}
